@@ -31,6 +31,8 @@ package dkg_proposal_fsm
 //@   ensures[C05.phasekeep] err == nil && old(dkgPhaseOk(m.payload, internal.CommitAwaitConfirmation, internal.CommitConfirmed)) ==> dkgPhaseOk(m.payload, internal.CommitAwaitConfirmation, internal.CommitConfirmed) && !dkgAny(m.payload, internal.CommitConfirmationError)
 //@   ensures[C05.reject,C18.reject] err != nil ==> dkgViewsSame(m)
 //@   ensures[C05.shape] outEvent == "" && response == nil
+// a well-formed confirmation of an awaited participant is never refused for another reason
+//@   erroronly[C05.accepts] Validate | !isCommitReq(args) || !old(rqCommit(args).ParticipantId in dkgQ(m.payload)) || old(dkgQ(m.payload)[rqCommit(args).ParticipantId].Status) != internal.CommitAwaitConfirmation
 //@   ensures[C05.once,C10.once] err == nil ==> isCommitReq(args) && old(rqCommit(args).ParticipantId in dkgQ(m.payload)) && old(dkgQ(m.payload)[rqCommit(args).ParticipantId].Status) == internal.CommitAwaitConfirmation && dkgQ(m.payload)[rqCommit(args).ParticipantId].Status == internal.CommitConfirmed
 //@   ensures[C05.data,C02.data] err == nil ==> len(rqCommit(args).Commit) > 0 && content(dkgQ(m.payload)[rqCommit(args).ParticipantId].DkgCommit) == old(content(rqCommit(args).Commit)) && fresh(dkgQ(m.payload)[rqCommit(args).ParticipantId].DkgCommit)
 //@   ensures[C05.keepdata] err == nil ==> dkgQ(m.payload)[rqCommit(args).ParticipantId].DkgDeal == old(dkgQ(m.payload)[rqCommit(args).ParticipantId].DkgDeal) && dkgQ(m.payload)[rqCommit(args).ParticipantId].DkgResponse == old(dkgQ(m.payload)[rqCommit(args).ParticipantId].DkgResponse) && dkgQ(m.payload)[rqCommit(args).ParticipantId].DkgMasterKey == old(dkgQ(m.payload)[rqCommit(args).ParticipantId].DkgMasterKey)
@@ -74,6 +76,8 @@ package dkg_proposal_fsm
 //@   ensures[C05.phasekeep] err == nil && old(dkgPhaseOk(m.payload, internal.DealAwaitConfirmation, internal.DealConfirmed)) ==> dkgPhaseOk(m.payload, internal.DealAwaitConfirmation, internal.DealConfirmed) && !dkgAny(m.payload, internal.DealConfirmationError)
 //@   ensures[C05.reject,C18.reject] err != nil ==> dkgViewsSame(m)
 //@   ensures[C05.shape] outEvent == "" && response == nil
+// a well-formed confirmation of an awaited participant is never refused for another reason
+//@   erroronly[C05.accepts] Validate | !isDealReq(args) || !old(rqDeal(args).ParticipantId in dkgQ(m.payload)) || old(dkgQ(m.payload)[rqDeal(args).ParticipantId].Status) != internal.DealAwaitConfirmation
 //@   ensures[C05.once,C10.once] err == nil ==> isDealReq(args) && old(rqDeal(args).ParticipantId in dkgQ(m.payload)) && old(dkgQ(m.payload)[rqDeal(args).ParticipantId].Status) == internal.DealAwaitConfirmation && dkgQ(m.payload)[rqDeal(args).ParticipantId].Status == internal.DealConfirmed
 //@   ensures[C05.data,C02.data] err == nil ==> len(rqDeal(args).Deal) > 0 && content(dkgQ(m.payload)[rqDeal(args).ParticipantId].DkgDeal) == old(content(rqDeal(args).Deal)) && fresh(dkgQ(m.payload)[rqDeal(args).ParticipantId].DkgDeal)
 //@   ensures[C05.keepdata] err == nil ==> dkgQ(m.payload)[rqDeal(args).ParticipantId].DkgCommit == old(dkgQ(m.payload)[rqDeal(args).ParticipantId].DkgCommit) && dkgQ(m.payload)[rqDeal(args).ParticipantId].DkgResponse == old(dkgQ(m.payload)[rqDeal(args).ParticipantId].DkgResponse) && dkgQ(m.payload)[rqDeal(args).ParticipantId].DkgMasterKey == old(dkgQ(m.payload)[rqDeal(args).ParticipantId].DkgMasterKey)
@@ -117,6 +121,8 @@ package dkg_proposal_fsm
 //@   ensures[C05.phasekeep] err == nil && old(dkgPhaseOk(m.payload, internal.ResponseAwaitConfirmation, internal.ResponseConfirmed)) ==> dkgPhaseOk(m.payload, internal.ResponseAwaitConfirmation, internal.ResponseConfirmed) && !dkgAny(m.payload, internal.ResponseConfirmationError)
 //@   ensures[C05.reject,C18.reject] err != nil ==> dkgViewsSame(m)
 //@   ensures[C05.shape] outEvent == "" && response == nil
+// a well-formed confirmation of an awaited participant is never refused for another reason
+//@   erroronly[C05.accepts] Validate | !isResponseReq(args) || !old(rqResponse(args).ParticipantId in dkgQ(m.payload)) || old(dkgQ(m.payload)[rqResponse(args).ParticipantId].Status) != internal.ResponseAwaitConfirmation
 //@   ensures[C05.once,C10.once] err == nil ==> isResponseReq(args) && old(rqResponse(args).ParticipantId in dkgQ(m.payload)) && old(dkgQ(m.payload)[rqResponse(args).ParticipantId].Status) == internal.ResponseAwaitConfirmation && dkgQ(m.payload)[rqResponse(args).ParticipantId].Status == internal.ResponseConfirmed
 //@   ensures[C05.data,C02.data] err == nil ==> len(rqResponse(args).Response) > 0 && content(dkgQ(m.payload)[rqResponse(args).ParticipantId].DkgResponse) == old(content(rqResponse(args).Response)) && fresh(dkgQ(m.payload)[rqResponse(args).ParticipantId].DkgResponse)
 //@   ensures[C05.keepdata] err == nil ==> dkgQ(m.payload)[rqResponse(args).ParticipantId].DkgCommit == old(dkgQ(m.payload)[rqResponse(args).ParticipantId].DkgCommit) && dkgQ(m.payload)[rqResponse(args).ParticipantId].DkgDeal == old(dkgQ(m.payload)[rqResponse(args).ParticipantId].DkgDeal) && dkgQ(m.payload)[rqResponse(args).ParticipantId].DkgMasterKey == old(dkgQ(m.payload)[rqResponse(args).ParticipantId].DkgMasterKey)
